@@ -17,6 +17,19 @@ def opMkCookie : Op
     pure s!"{hex dom} {hex c.path} {b c.secure} {b c.httpOnly} {hex c.sameSite} {ma}"
   | _ => none
 
+/-- `mkcookie-cfg …`: the same with the domains AS THE OPERATOR WROTE THEM (any order); validation's sort is part of the model -/
+def opMkCookieCfg : Op
+  | [doms, path, sec, ho, ss, host, name, exp] => do
+    let cfg : CookieCfg := { domains := sortDomains (← strs doms), path := ← str path, secure := ← Proto.bool sec,
+                             httpOnly := ← Proto.bool ho, sameSite := ← str ss }
+    let c := makeCookie cfg (← str host) (← str name) [] (← Proto.int exp)
+    let ma := match c.maxAge with
+      | none => "none"
+      | some n => if n < 0 then "neg" else s!"pos:{n}"
+    let dom := if hasPrefix ['.'] c.domain then c.domain.drop 1 else c.domain
+    pure s!"{hex dom} {hex c.path} {b c.secure} {b c.httpOnly} {hex c.sameSite} {ma}"
+  | _ => none
+
 /-- `rhist ops t` : Redis history; ops = `L:p:f:s` (p = - for none) | `R:t:s` | `Q:t` | `O:t` joined by `,` -/
 def opRHist : Op
   | [ops, t] => do
@@ -32,6 +45,6 @@ def opRHist : Op
     pure (match kvGet (rrun [] parsed) t with | some s => s!"some:{s}" | none => "none")
   | _ => none
 
-def cookiesOps : List (String × Op) := [("mkcookie", opMkCookie), ("rhist", opRHist)]
+def cookiesOps : List (String × Op) := [("mkcookie", opMkCookie), ("mkcookie-cfg", opMkCookieCfg), ("rhist", opRHist)]
 
 end O2P.Drv
